@@ -436,8 +436,14 @@ func startServers(cfg *config.Config, stats metrics.Provider) {
 			go func() {
 				var buffer strings.Builder
 				lastPorts := []string{}
+				// without refresh= the loop would spin and start a second
+				// listener for a port before the first one has bound it
+				refresh := l.Refresh
+				if refresh <= 0 {
+					refresh = 5 * time.Second
+				}
 				for {
-					time.Sleep(l.Refresh)
+					time.Sleep(refresh)
 					table := route.GetTable()
 					ports := []string{}
 					for target, rts := range table {
